@@ -18,7 +18,8 @@ PROP = {
     "level_note": ("Trusted: the kernel stops touching operation memory once close(ring_fd) returns; hooks in compio-driver report "
                    "events faithfully (they are add-only and sit next to the real actions); the canary byte pattern is not what a "
                    "legitimate completion would write. Runtime-level futures (compio-runtime Submit/SubmitMulti drop paths) are "
-                   "exercised by the C05/C06/C07/C14 workloads, not here."),
+                   "exercised by the C05/C06/C07/C14 workloads, not here."
+                   " Builds: the fusion build (both drivers in one binary) carries the bulk of the runs; the legs `iour-only` / `poll-only` repeat the workloads with compio-driver compiled for a single driver (io-uring only is the default build of compio), so the #[cfg(not(fusion))] glue is exercised too, at a smaller volume."),
     "technique": "runtime monitoring: event-log trace checker + quarantining canary allocator + ASan/TSan over seeded operation soups",
     "rule": SOUP_RULE,
     "assumptions": ["kernel io_uring semantics as documented", "loopback/pipe/socketpair semantics of this sandbox"],
@@ -32,6 +33,16 @@ PROP = {
         {"name": "tsan", "build": "tsan", "pkg": "vdrv", "cmd": "c01", "shards": 4,
          "args": {"quick": ["--no-canary", "--no-log", "--kinds", "Asyncify,ReadAt,PipeRead,SockRecv", "--iters", 60, "--budget-ms", 45000],
                   "thorough": ["--no-canary", "--no-log", "--kinds", "Asyncify,ReadAt,PipeRead,SockRecv", "--iters", 1500, "--budget-ms", 420000]},
+         "timeout_s": {"quick": 240, "thorough": 900}},
+        # single-driver configuration (the default build of compio): the #[cfg(not(fusion))] glue of compio-driver
+        {"name": "iour-only", "build": "plain-iour", "pkg": "vdrv", "cmd": "c01", "shards": 3,
+         "args": {"quick": [] + ["--driver", "iour", "--iters", 150, "--budget-ms", 40000],
+                  "thorough": [] + ["--driver", "iour", "--iters", 3000, "--budget-ms", 300000]},
+         "timeout_s": {"quick": 240, "thorough": 900}},
+        # single-driver configuration (polling only): the #[cfg(not(fusion))] glue of compio-driver
+        {"name": "poll-only", "build": "plain-poll", "pkg": "vdrv", "cmd": "c01", "shards": 3,
+         "args": {"quick": [] + ["--driver", "poll", "--iters", 150, "--budget-ms", 40000],
+                  "thorough": [] + ["--driver", "poll", "--iters", 3000, "--budget-ms", 300000]},
          "timeout_s": {"quick": 240, "thorough": 900}},
     ],
 }
